@@ -85,17 +85,20 @@ impl PingTracker {
 //@|         && final(self).max_timeout == old(self).max_timeout,
 //@|     // ... any other pong (older ping, wrong data, nothing outstanding) changes nothing at all
 //@|     !(old(self).inner matches Some(p) && p.data@ == data@) ==> *final(self) == *old(self),
-//@rw R11 1
-//@- inner.data == data
-//@+ array8_eq(&inner.data, &data)
+//@rwx R11 *
+//@- \b(\w+)\.data == data\b
+//@+ array8_eq(&\1.data, &data)
 //@end
 
 //@fn iroh-relay/src/ping_tracker.rs PingTracker::ping_timeout props=C14 ret=r
 //@| requires self.wf()
 //@| ensures r@ == ping_timeout_spec(*self)
-//@rwx A3 1
-//@- \.map\(\|rtt\| (.*)\)\n
-//@+ .map(|rtt: Duration| -> (o: Duration) requires rtt@ <= time::now_max(), 500_000_000 <= self.max_timeout@ ensures o@ == clamp3(rtt@, self.max_timeout@) { broadcast use time::time_axioms; \1 })\n
+//@rwx A3 *
+//@- \.map\(\|(\w+)\| (.*)\)\n
+//@+ .map(|\1: Duration| -> (o: Duration) requires \1@ <= time::now_max(), 500_000_000 <= self.max_timeout@ ensures o@ == clamp3(\1@, self.max_timeout@) { broadcast use time::time_axioms; \2 })\n
+//@ins before 1
+//@- self.last_rtt
+//@| broadcast use time::time_axioms;
 //@end
 
 //@fn iroh-relay/src/ping_tracker.rs PingTracker::timeout props=C14 ret=r
